@@ -36,6 +36,32 @@ class Broken(Exception):
     pass
 
 
+def _acquire_tlc_slot():
+    """Machine-wide cap on concurrently running TLC JVMs (all vcheck processes
+    share VERIF_TLC_SLOTS lock files): keeps parallel checks from oversubscribing
+    the cores and the RAM. Waiting for a slot is not counted in the TLC timeout."""
+    import fcntl
+    n = int(os.environ.get("VERIF_TLC_SLOTS", "10"))
+    d = os.path.join(tempfile.gettempdir(), "verif-tlc-slots")
+    os.makedirs(d, exist_ok=True)
+    while True:
+        for i in range(n):
+            f = open(os.path.join(d, "slot%d" % i), "w")
+            try:
+                fcntl.flock(f, fcntl.LOCK_EX | fcntl.LOCK_NB)
+                return f
+            except OSError:
+                f.close()
+        time.sleep(0.5)
+
+
+def _release_tlc_slot(f):
+    try:
+        f.close()
+    except Exception:
+        pass
+
+
 class TlcResult:
     def __init__(self):
         self.rc = None
@@ -180,6 +206,7 @@ class Ctx:
             cmd += ["-dumpTrace", "json", dump]
         cmd += extra_args or []
         cmd.append(module + ".tla")
+        slot = _acquire_tlc_slot()
         t0 = time.time()
         try:
             p = subprocess.run(cmd, cwd=d, stdout=subprocess.PIPE, stderr=subprocess.STDOUT,
@@ -189,6 +216,8 @@ class Ctx:
             res.timed_out = True
             res.out = (e.stdout or b"").decode("utf-8", "replace") if isinstance(e.stdout, bytes) else (e.stdout or "")
             subprocess.run(["pkill", "-f", meta], stderr=subprocess.DEVNULL)
+        finally:
+            _release_tlc_slot(slot)
         res.wall = time.time() - t0
         with open(os.path.join(d, "tlc.out"), "w") as f:
             f.write(res.out)
